@@ -5,9 +5,10 @@ C09 — SafeWriter contract: each payload lands once, in order, on its own side.
 
 Well-formedness and line safety of every call sequence is C01 (`builder_wf`,
 `adapter_wf`, `buffer_wf`). Here the two equalities, for `builder.StringBuilder`
-(through it the buffer) and every sequence of SafeWriter calls whose payloads
-are empty or end in an ASCII byte — inside, a payload may hold anything: markers,
-partial markers, multi-byte and invalid sequences, line feeds:
+(through it the buffer) and the printer's SafeWriter adapter, and every sequence
+of SafeWriter calls whose payloads are empty or end in a complete UTF-8
+character (every valid-UTF-8 payload does; before its last character a payload
+may hold anything: markers, partial markers, invalid sequences, line feeds):
 
 * `builder_strip`: with markers stripped, the result is the concatenation, in
   call order, of the payloads with marker characters replaced by `?`;
@@ -15,26 +16,27 @@ partial markers, multi-byte and invalid sequences, line feeds:
   safe payloads (markers replaced by `?`), the line feeds of the unsafe ones,
   and the outside text of inner print results.
 
-The hypothesis on the payloads' last byte keeps the truncated-UTF-8 tail fix
-from firing (it appends one `?` after a payload that ends in the middle of a
+The hypothesis on the payloads' end keeps the truncated-UTF-8 tail fix from
+firing (it appends one `?` after a payload that ends in the middle of a
 multi-byte sequence when the mode is switched there, and nothing otherwise —
-which is why the property restricts these two equalities to valid UTF-8). The
-general valid-UTF-8 case (a payload ending in a complete multi-byte character)
-is not proved here (`_partial`); it is decided by the correspondence (B streams,
-all three implementations) and the real-code oracles.
+which is why the property restricts these two equalities to valid UTF-8;
+`tail_fix_visible`). Single bytes (`SafeByte`, `UnsafeByte`) are taken ASCII:
+an unsafe non-ASCII byte is replaced by `?` (C11). The theorems keep the suffix
+`_partial` for that restriction and because `Print/Printf` on the adapter
+(nested printers) belong to the printer model, not to this call alphabet.
 -/
 namespace Redact
 
-/-- Payloads that are empty or end in an ASCII byte; inner print results are finished redactables. -/
+/-- Payloads that are empty or end in a complete character; inner print results are finished redactables. -/
 def CleanW : WOp → Prop
-  | .safeString p => endsAscii p = true
-  | .safeNum p => endsAscii p = true
-  | .unsafeString p => endsAscii p = true
+  | .safeString p => EndsRune p
+  | .safeNum p => EndsRune p
+  | .unsafeString p => EndsRune p
   | .safeByte x => x < 0x80
   | .unsafeByte x => x < 0x80
-  | .safeRune r => endsAscii (encodeRune r) = true
-  | .unsafeRune r => endsAscii (encodeRune r) = true
-  | .print r => Obtainable r ∧ asciiEnd (tokenize r) = true
+  | .safeRune r => EndsRune (encodeRune r)
+  | .unsafeRune r => EndsRune (encodeRune r)
+  | .print r => Obtainable r ∧ RuneEnd (tokenize r)
 
 /-- What a call contributes to the stripped reading. -/
 def plainW : WOp → List Tok
@@ -59,7 +61,7 @@ def safeW : WOp → List Tok
   | .print r => dropEnvT (tokenize r)
 
 theorem kinv_init : KInv Buffer.init [] [] :=
-  ⟨inv_init, rfl, fun _ => rfl, fun _ => rfl, rfl, rfl⟩
+  ⟨inv_init, runeEnd_nil, fun _ => runeEnd_nil, fun _ => Or.inl rfl, rfl, rfl⟩
 
 theorem writeByte_ascii (b : Buffer) (x : Byte) (hi : Inv b) (hx : x < 0x80) : b.writeByte x = b.write [x] := by
   rw [writeByte_eq b x hi]
@@ -90,14 +92,14 @@ theorem builderOps_K (b : Buffer) (w : WOp) (acc dacc : List Tok) (k : KInv b ac
     simpa [builderOps, Buffer.run, Buffer.step, md, pendPlainT, pendSafeT, plainW, safeW] using this
   | safeByte x =>
     have hx : x < 0x80 := hw
-    have he : endsAscii [x] = true := by simp [endsAscii, hx]
+    have he : EndsRune [x] := Or.inr ⟨[], [x], rfl, by simpa [validRuneB] using hx⟩
     have := write_K _ [x] acc dacc (sm .safeEsc) (fun h => by rw [md] at h; cases h) (fun _ => he)
     simp only [builderOps, Buffer.run, List.foldl_cons, List.foldl_nil, Buffer.step]
     rw [writeByte_ascii _ x (sm .safeEsc).inv hx]
     simpa [md, pendPlainT, pendSafeT, plainW, safeW, tokenize_ascii x hx, escT] using this
   | unsafeByte x =>
     have hx : x < 0x80 := hw
-    have he : endsAscii [x] = true := by simp [endsAscii, hx]
+    have he : EndsRune [x] := Or.inr ⟨[], [x], rfl, by simpa [validRuneB] using hx⟩
     have := write_K _ [x] acc dacc (sm .unsafeEsc) (fun h => by rw [md] at h; cases h) (fun _ => he)
     simp only [builderOps, Buffer.run, List.foldl_cons, List.foldl_nil, Buffer.step]
     rw [writeByte_ascii _ x (sm .unsafeEsc).inv hx]
@@ -122,7 +124,7 @@ theorem builderRun_K (b : Buffer) (ws : List WOp) (acc dacc : List Tok) (k : KIn
     have := ih _ _ _ (builderOps_K b w acc dacc k (hw w (by simp))) (fun w' hw' => hw w' (by simp [hw']))
     simpa [List.flatMap_cons, List.append_assoc] using this
 
-/-- **C09, stripped reading (partial: payloads empty or ASCII-ended).** -/
+/-- **C09, stripped reading (partial: single bytes ASCII).** -/
 theorem builder_strip_partial (ws : List WOp) (hw : ∀ w ∈ ws, CleanW w) :
     stripMarkers (builderRun Buffer.init ws).redactableBytes = untok (ws.flatMap plainW) := by
   have k := builderRun_K Buffer.init ws [] [] kinv_init hw
@@ -130,7 +132,7 @@ theorem builder_strip_partial (ws : List WOp) (hw : ∀ w ∈ ws, CleanW w) :
   unfold stripMarkers Buffer.redactableBytes
   rw [p]; simp
 
-/-- **C09, reading outside envelopes (partial: payloads empty or ASCII-ended).** -/
+/-- **C09, reading outside envelopes (partial: single bytes ASCII).** -/
 theorem builder_dropEnv_partial (ws : List WOp) (hw : ∀ w ∈ ws, CleanW w) :
     dropEnv (builderRun Buffer.init ws).redactableBytes = untok (ws.flatMap safeW) := by
   have k := builderRun_K Buffer.init ws [] [] kinv_init hw
@@ -152,7 +154,7 @@ theorem bracket_K (b : Buffer) (m : Mode) (hm : m ≠ .raw) (f : Buffer → Buff
 theorem adapterStep_K (p : PPB) (w : WOp) (acc dacc : List Tok) (k : KInv p.buf acc dacc) (ho : p.override = .no)
     (hw : CleanW w) (hnp : ∀ r, w ≠ .print r) :
     KInv (adapterStep p w).buf (acc ++ plainW w) (dacc ++ safeW w) ∧ (adapterStep p w).override = .no := by
-  have wr : ∀ (m : Mode) (hm : m ≠ .raw) (s : List Byte), endsAscii s = true → ∀ c, KInv c acc dacc → c.mode = m →
+  have wr : ∀ (m : Mode) (hm : m ≠ .raw) (s : List Byte), EndsRune s → ∀ c, KInv c acc dacc → c.mode = m →
       KInv (c.write s) (acc ++ pendPlainT m s) (dacc ++ pendSafeT m s) := by
     intro m hm s hs c kc hcm
     have := write_K c s acc dacc kc (fun h => by rw [hcm] at h; exact absurd h hm) (fun _ => hs)
@@ -176,14 +178,14 @@ theorem adapterStep_K (p : PPB) (w : WOp) (acc dacc : List Tok) (k : KInv p.buf 
     simpa [adapterStep, PPB.startUnsafe, PPB.restore, PPB.onBuf, ho, pendPlainT, pendSafeT, plainW, safeW] using this
   | safeByte x =>
     have hx : x < 0x80 := hw
-    have he : endsAscii [x] = true := by simp [endsAscii, hx]
+    have he : EndsRune [x] := Or.inr ⟨[], [x], rfl, by simpa [validRuneB] using hx⟩
     have := bracket_K p.buf .safeEsc (by decide) (·.writeByte x) acc dacc _ _ k
       (fun c kc hcm => by rw [writeByte_ascii c x kc.inv hx]; exact wr .safeEsc (by decide) [x] he c kc hcm)
     simpa [adapterStep, PPB.startSafeOverride, PPB.restore, PPB.onBuf, ho, pendPlainT, pendSafeT, plainW, safeW,
       tokenize_ascii x hx, escT] using this
   | unsafeByte x =>
     have hx : x < 0x80 := hw
-    have he : endsAscii [x] = true := by simp [endsAscii, hx]
+    have he : EndsRune [x] := Or.inr ⟨[], [x], rfl, by simpa [validRuneB] using hx⟩
     have := bracket_K p.buf .unsafeEsc (by decide) (·.writeByte x) acc dacc _ _ k
       (fun c kc hcm => by rw [writeByte_ascii c x kc.inv hx]; exact wr .unsafeEsc (by decide) [x] he c kc hcm)
     simpa [adapterStep, PPB.startUnsafe, PPB.restore, PPB.onBuf, ho, pendPlainT, pendSafeT, plainW, safeW,
@@ -239,17 +241,44 @@ theorem tail_fix_visible :
     stripMarkers (builderRun Buffer.init [.unsafeString [0x61, 0xC3], .safeString [0x62]]).redactableBytes
       = [0x61, 0xC3, 0x3F, 0x62] := by decide
 
-/-! Non-vacuity: payloads with markers, partial markers and line feeds inside. -/
-example : stripMarkers (builderRun Buffer.init
-      [.unsafeString ([0x61] ++ startB ++ [0x0A, 0xE2, 0x62]), .safeString (endB ++ [0x63]), .unsafeByte 0x0A, .safeByte 0x64]).redactableBytes
-    = [0x61, 0x3F, 0x0A, 0xE2, 0x62, 0x3F, 0x63, 0x0A, 0x64] := by
-  rw [builder_strip_partial _ (by intro w hw; simp at hw; rcases hw with rfl | rfl | rfl | rfl <;> simp [CleanW, endsAscii, startB, endB])]
-  decide
+/-- Well-formed UTF-8: a sequence of complete characters. -/
+inductive Utf8 : List Byte → Prop
+  | nil : Utf8 []
+  | cons (r p : List Byte) : validRuneB r = true → Utf8 p → Utf8 (r ++ p)
 
-example : dropEnv (builderRun Buffer.init
-      [.unsafeString ([0x61] ++ startB ++ [0x0A, 0xE2, 0x62]), .safeString (endB ++ [0x63]), .unsafeByte 0x0A, .safeByte 0x64]).redactableBytes
-    = [0x0A, 0x3F, 0x63, 0x0A, 0x64] := by
-  rw [builder_dropEnv_partial _ (by intro w hw; simp at hw; rcases hw with rfl | rfl | rfl | rfl <;> simp [CleanW, endsAscii, startB, endB])]
-  decide
+/-- Every valid UTF-8 payload meets the hypothesis of the two equalities. -/
+theorem endsRune_of_utf8 {p : List Byte} (h : Utf8 p) : EndsRune p := by
+  induction h with
+  | nil => exact Or.inl rfl
+  | cons r p hr _ ih =>
+    rcases ih with rfl | ⟨q, r', rfl, hr'⟩
+    · exact Or.inr ⟨[], r, by simp, hr⟩
+    · exact Or.inr ⟨r ++ q, r', by simp, hr'⟩
+
+theorem endsRune_snoc_ascii (q : List Byte) (c : Byte) (hc : c < 0x80) : EndsRune (q ++ [c]) :=
+  Or.inr ⟨q, [c], rfl, by simpa [validRuneB] using hc⟩
+
+/-! Non-vacuity: payloads with markers, partial markers and line feeds inside; a payload ending in a
+multi-byte character. -/
+def exWs : List WOp :=
+  [.unsafeString ([0x61] ++ startB ++ [0x0A, 0xE2, 0x62]), .safeString (endB ++ [0x63]), .unsafeByte 0x0A, .safeByte 0x64]
+
+theorem exWs_clean : ∀ w ∈ exWs, CleanW w := by
+  intro w hw
+  simp only [exWs, List.mem_cons, List.not_mem_nil, or_false] at hw
+  rcases hw with rfl | rfl | rfl | rfl
+  · exact endsRune_snoc_ascii ([0x61] ++ startB ++ [0x0A, 0xE2]) 0x62 (by decide)
+  · exact endsRune_snoc_ascii endB 0x63 (by decide)
+  · show (0x0A : Byte) < 0x80; decide
+  · show (0x64 : Byte) < 0x80; decide
+
+example : stripMarkers (builderRun Buffer.init exWs).redactableBytes
+    = [0x61, 0x3F, 0x0A, 0xE2, 0x62, 0x3F, 0x63, 0x0A, 0x64] := by
+  rw [builder_strip_partial _ exWs_clean]; decide
+
+example : dropEnv (builderRun Buffer.init exWs).redactableBytes = [0x0A, 0x3F, 0x63, 0x0A, 0x64] := by
+  rw [builder_dropEnv_partial _ exWs_clean]; decide
+
+example : EndsRune ([0x61, 0xE2, 0x80] ++ [0xC3, 0xA9]) := Or.inr ⟨_, [0xC3, 0xA9], rfl, by decide⟩
 
 end Redact
